@@ -189,7 +189,10 @@ type c14HistResult struct {
 	Bad     bool   // a contradiction was reported
 	Err     string // the harness could not carry the history out (machinery)
 	Drift   []string
+	Skipped bool // not run: the budget of distinct contradictions was used up
 }
+
+const c14HistBudget = 8 // distinct violation keys after which further histories are skipped
 
 var c14ProofPoint = crypto.ScalarBaseMult(tss.S256(), big.NewInt(0xC14))
 
@@ -403,6 +406,10 @@ func c14RunHistories(jobs []c14HistJob, workers int, col *c14Col) []c14HistResul
 			defer wg.Done()
 			for i := range ch {
 				j := jobs[i]
+				if col.distinct() >= c14HistBudget {
+					out[i] = c14HistResult{Skipped: true} // enough contradictions to report; the rest would repeat them
+					continue
+				}
 				out[i] = c14RunHistory(j.hist, j.keys, j.seed, j.exact, col)
 			}
 		}()
@@ -478,6 +485,9 @@ func c14HistPhase(ctx *core.Ctx, col *c14Col, fixtures []*c14Key, directed, walk
 		for _, r := range rs {
 			steps += r.Steps
 			reloads += r.Reloads
+			if r.Skipped {
+				continue
+			}
 			if r.Err != "" {
 				fail("history replay (%s): %s", name, r.Err)
 			} else if r.Bad {
@@ -569,7 +579,10 @@ func c14HistPhase(ctx *core.Ctx, col *c14Col, fixtures []*c14Key, directed, walk
 	}
 	tally("vendored_2048_bit_keys", c14RunHistories(jobs, 8, col))
 
-	// ---- toy keys of the model
+	// ---- toy keys of the model (for the trace validation; pointless once contradictions were found above)
+	if col.violations() > 0 {
+		return nil
+	}
 	var toy [2]*c14Stored
 	for i := 0; i < 2; i++ {
 		k, err := c14KeyFromFactors(big.NewInt(c14HistToy[2*i]), big.NewInt(c14HistToy[2*i+1]), true, "toy")
